@@ -28,7 +28,7 @@ pub fn cap_of(kind: u8, padded: usize) -> usize {
         1 => padded + 1,
         2 => padded + padded / 2 + 1,
         3 => 2 * padded,
-        _ => 256.max(padded),
+        _ => 512.max(padded),
     }
 }
 
@@ -40,9 +40,10 @@ fn cases(ctx: &Ctx, curve: &str) -> Vec<Case> {
         let s = r.u64();
         v.push(Case { curve: curve.into(), name, seed: s, cfg, cap_p: (s % 5) as u8, cap_v: ((s >> 8) % 5) as u8, cross_prover: true });
     }
-    if ctx.tier == Tier::Thorough {
-        // a few large circuits (many rounds, long vectors)
-        for (a, b) in [(255usize, 0usize), (256, 0), (257, 0), (200, 312), (0, 300), (1000, 24)] {
+    {
+        // a few large circuits (many rounds, long vectors); more of them in the thorough tier
+        let big: Vec<(usize, usize)> = if ctx.tier == Tier::Thorough { vec![(255, 0), (256, 0), (257, 0), (200, 312), (0, 300), (1000, 24), (511, 1), (64, 64), (129, 127)] } else { vec![(129, 0), (100, 156), (0, 257)] };
+        for (a, b) in big {
             let s = r.u64();
             v.push(Case { curve: curve.into(), name: format!("large-n1={},n2={}", a, b), seed: s, cfg: GenCfg { q: 3, depth: 1, ..GenCfg::simple(a, b) }, cap_p: 0, cap_v: (s % 2) as u8 * 3, cross_prover: false });
         }
@@ -153,7 +154,7 @@ fn run_case<G: AffineRepr>(env: &Env<G>, c: &Case) -> CaseOut {
 }
 
 fn run_curve<G: AffineRepr>(ctx: &Ctx, curve: &'static str, only: Option<&Case>) -> Agg {
-    let env = Env::<G>::new(curve, if ctx.tier == Tier::Thorough { 1024 } else { 256 });
+    let env = Env::<G>::new(curve, if ctx.tier == Tier::Thorough { 1024 } else { 512 });
     let cs = match only {
         Some(c) => vec![c.clone()],
         None => cases(ctx, curve),
